@@ -14,38 +14,38 @@ Proof.
 Qed.
 
 Theorem dec_float_lval (b : Z) (l : list Z) : 0 <= b ->
-  dec_float b l = (lval b l, Z.of_nat (length l) * b).
+  dec_float b l = (e_lval b l, Z.of_nat (length l) * b).
 Proof.
   intros Hb. unfold dec_float. rewrite dec_float_aux by lia.
   rewrite <- lval_rev, rev_involutive, rev_length, Z.pow_0_r. f_equal; lia.
 Qed.
 
 Lemma lval_acc (b : Z) (l : list Z) (a : Z) : 0 <= b ->
-  fold_left (fun acc x => acc * 2 ^ b + x) l a = a * 2 ^ (Z.of_nat (length l) * b) + lval b l.
+  fold_left (fun acc x => acc * 2 ^ b + x) l a = a * 2 ^ (Z.of_nat (length l) * b) + e_lval b l.
 Proof.
   intros Hb. revert a; induction l as [|x t IH]; intros a.
-  - cbn [fold_left length]. unfold lval. cbn [fold_left]. change (Z.of_nat 0) with 0. rewrite Z.mul_0_l, Z.pow_0_r. ring.
-  - unfold lval. cbn [fold_left]. rewrite !IH. cbn [length].
+  - cbn [fold_left length]. unfold e_lval. cbn [fold_left]. change (Z.of_nat 0) with 0. rewrite Z.mul_0_l, Z.pow_0_r. ring.
+  - unfold e_lval. cbn [fold_left]. rewrite !IH. cbn [length].
     replace (Z.of_nat (S (length t)) * b) with (b + Z.of_nat (length t) * b) by lia.
     rewrite Z.pow_add_r by lia. ring.
 Qed.
 
-Lemma lval_cons (b x : Z) (t : list Z) : 0 <= b -> lval b (x :: t) = x * 2 ^ (Z.of_nat (length t) * b) + lval b t.
-Proof. intros Hb. unfold lval at 1. cbn [fold_left]. rewrite lval_acc by lia. ring. Qed.
+Lemma lval_cons (b x : Z) (t : list Z) : 0 <= b -> e_lval b (x :: t) = x * 2 ^ (Z.of_nat (length t) * b) + e_lval b t.
+Proof. intros Hb. unfold e_lval at 1. cbn [fold_left]. rewrite lval_acc by lia. ring. Qed.
 
 Lemma val_scaled_acc (b : Z) (l : list Z) (acc j : Z) : 0 <= b ->
   fst (fold_left (fun (s : Z * Z) x => (fst s + x * 2 ^ ((j + Z.of_nat (length l)) * b - (snd s + 1) * b), snd s + 1)) l (acc, j))
-  = acc + lval b l.
+  = acc + e_lval b l.
 Proof.
   intros Hb. revert acc j; induction l as [|x t IH]; intros acc j.
-  - cbn [fold_left fst]. unfold lval. cbn [fold_left]. lia.
+  - cbn [fold_left fst]. unfold e_lval. cbn [fold_left]. lia.
   - cbn [fold_left fst snd length].
     replace (j + Z.of_nat (S (length t))) with ((j + 1) + Z.of_nat (length t)) by lia.
     rewrite IH. rewrite lval_cons by lia.
     replace (((j + 1 + Z.of_nat (length t)) * b - (j + 1) * b)) with (Z.of_nat (length t) * b) by ring. ring.
 Qed.
 
-Lemma val_scaled_lval (b : Z) (l : list Z) : 0 <= b -> val_scaled (Z.of_nat (length l) * b) b l = lval b l.
+Lemma val_scaled_lval (b : Z) (l : list Z) : 0 <= b -> val_scaled (Z.of_nat (length l) * b) b l = e_lval b l.
 Proof.
   intros Hb. unfold val_scaled.
   pose proof (val_scaled_acc b l 0 0 Hb) as H. rewrite Z.add_0_l in H. exact H.
